@@ -19,7 +19,8 @@ PROPS = {
     "C06": dict(tests=[T("TestVerifC06Seq", 4000, 60000)]),
     "C07": dict(tests=[T("TestVerifC07", 30000, 400000)]),
     "C08": dict(tests=[T("TestVerifC08Buffer", 6000, 100000), T("TestVerifC08Store", 150, 1500, shrinktime="0s")]),
-    "C09": dict(tests=[T("TestVerifC09", 120, 400, shrinktime="0s", th_timeout=2400)]),
+    "C09": dict(tests=[T("TestVerifC09", 120, 400, shrinktime="0s", th_timeout=2400),
+                       T("TestVerifC09Policy", 12, 150, q_shards=6, shrinktime="0s", th_timeout=2400)]),
     "C10": dict(tests=[T("TestVerifC10", 60, 1200, pkg=".", shrinktime="0s")]),
     "C11": dict(tests=[T("TestVerifC11", 3000, 30000)]),
     "C12": dict(level="fault_enumeration", evaluations_from_extra="c12_faulted_loads", tests=[T("TestVerifC12", 2, 30, q_shards=12)]),
